@@ -9,6 +9,24 @@ import GLua.Proofs.CompileWfCert
 namespace GLua.CompileWf
 open GLua GLua.Compile GLua.MiniVM GLua.Verifier GLua.Generated GLua.Lowering
 
+variable [NumStruct]
+set_option linter.unusedSectionVars false
+
+/-- an integer number structure for the kernel-evaluated examples of Props/C07.lean (`/` truncates, `^` takes the
+    exponent's absolute value, no NaN: any total operations do — the theorems are for EVERY number structure). -/
+@[reducible] def intNS : NumStruct where
+  N := Int
+  deq := inferInstance
+  add := (· + ·)
+  sub := (· - ·)
+  mul := (· * ·)
+  div := (· / ·)
+  mod := (· % ·)
+  pow := fun a b => a ^ b.toNat
+  neg := (- ·)
+  lit := id
+  isNaN := fun _ => false
+
 theorem maxregOf_mono (i : Instr) {m m' : Nat} (h : m ≤ m') : maxregOf i m ≤ maxregOf i m' := by
   cases i <;> simp only [maxregOf] <;> (try split) <;> (try split) <;> omega
 
@@ -92,8 +110,20 @@ theorem origOK_main (n : Nat) (body : Block) (hs : scopeOK n body = true) : Orig
     omega
   · rw [hc]; simp
 
+/-- no instruction of a well-scoped program's code is TFORLOOP -/
+theorem origOK_noTFor {st : CState} (ho : OrigOK st) (pc : Nat) : afterTForLoop st.code pc = false := by
+  rw [afterTForLoop_eq]
+  cases hi : st.code[pc - 1]? with
+  | none => simp [tfOf]
+  | some i =>
+    have := ho.iok _ _ hi
+    cases i <;> simp only [tfOf, Bool.and_false]
+    case abc op a b c =>
+      simp only [IOK] at this
+      rw [this.1]; simp [OP_VARARG, OP_TFORLOOP]
+
 theorem fragOK_cert (n : Nat) (body : Block) (hs : scopeOK n body = true) (code : List Instr) (nregs : Nat)
-    (hp : patchCode (compileMain n body) = .ok (code, nregs)) (hlen : code.length ≤ opMaxArgSbx)
+    (hp : patchCode (compileMain n body) = .ok (code, nregs))
     (hk : (compileMain n body).consts.length ≤ opMaxArgBx + 1) :
     Cert (compileMain n body).consts code nregs := by
   have ho := origOK_main n body hs
@@ -159,13 +189,16 @@ theorem fragOK_cert (n : Nat) (body : Block) (hs : scopeOK n body = true) (code 
         · cases h
       simp only [FinI] at hf
       obtain ⟨d, htj, rfl⟩ := hf
+      have htf := origOK_noTFor ho pc
       by_cases hd0 : d = 0
-      · simp only [hd0, if_true, XI]; exact hn
-      · simp only [hd0, if_false, XI]
-        rcases (threadJmp_range st.code st.labelPc pc ho.lg 5 (.jmp L) 0 ⟨pc, hi⟩).1 d htj with h | ⟨⟨h1, h2⟩, h3⟩
+      · simp only [hd0, htf, and_self, if_true, XI]; exact hn
+      · simp only [hd0, false_and, if_false, XI]
+        rcases threadJmp_range st.code st.labelPc pc ho.lg 5 (.jmp L) 0 ⟨pc, hi⟩ d htj with h | ⟨h1, h2⟩
         · exact absurd h hd0
-        · simp only [hsb] at hlen h3
-          refine ⟨by omega, by omega, by omega, by omega⟩
+        · rcases threadJmp_fits st.code st.labelPc pc 5 (.jmp L) 0 d htj with h | ⟨h3, h4⟩
+          · exact absurd h hd0
+          · simp only [hsb] at h3 h4
+            refine ⟨by omega, by omega, by omega, by omega⟩
     case moven => simp [IOK] at hiok
     case nop => simp [IOK] at hiok
     case ret a b =>
@@ -195,6 +228,10 @@ theorem fragOK_cert (n : Nat) (body : Block) (hs : scopeOK n body = true) (code 
     case le a b c => exact ⟨hiok.1, hiok.2.1, hiok.2.2, hskip rfl⟩
     case eval a id => simp only [maxregOf, Instr.argA] at hcnt; exact ⟨by omega, hiok, hn⟩
     case setg a id => exact ⟨hiok.1, hiok.2, hn⟩
+    case arith op a b c => simp only [maxregOf, Instr.argA] at hcnt; exact ⟨by omega, hiok.1, hiok.2, hn⟩
+    case unm a b => simp only [maxregOf, Instr.argA] at hcnt; omega
+    case len a b => simp only [maxregOf, Instr.argA] at hcnt; omega
+    case concat a b c => simp only [maxregOf, Instr.argA] at hcnt; omega
     case abc op a b c =>
       obtain ⟨rfl, rfl, hb, rfl⟩ := hiok
       simp only [maxregOf, if_true] at hcnt
@@ -218,9 +255,8 @@ theorem fragOK_wf (n : Nat) (body : Block) (h : FragOK n body = true) :
   | error e => simp [hp] at hg
   | ok r =>
     obtain ⟨code, nregs⟩ := r
-    simp only [hp, Bool.and_eq_true, decide_eq_true_eq] at hg
-    refine ⟨_, rfl, cert_wf n _ code nregs (fragOK_cert n body hs code nregs hp ?_ ?_)⟩
-    · have := hg.1; rwa [toProto_code_size] at this
-    · have := hg.2; rwa [toProto_consts_size] at this
+    simp only [hp, decide_eq_true_eq] at hg
+    refine ⟨_, rfl, cert_wf n _ code nregs (fragOK_cert n body hs code nregs hp ?_)⟩
+    rwa [toProto_consts_size] at hg
 
 end GLua.CompileWf
